@@ -235,6 +235,9 @@ func (m *Mux) serve(w *ResponseWriter, req *Request) {
 		return
 	}
 	w.logger.Error("no matching handler found for request and returning internal error", "op", op, "connID", w.connID, "requestID", w.requestID, "routeOp", req.routeOp)
-	resp := req.NewResponse(WithResponseCode(ResultUnwillingToPerform), WithDiagnosticMessage("No matching handler found"))
+	// answer with the response type that belongs to the request's operation,
+	// otherwise the client doesn't recognise this as the final answer to its
+	// request and keeps waiting.
+	resp := req.NewResponse(WithApplicationCode(req.responseApplicationCode()), WithResponseCode(ResultUnwillingToPerform), WithDiagnosticMessage("No matching handler found"))
 	_ = w.Write(resp)
 }
